@@ -248,6 +248,43 @@ def run(R):
         R.ob("C07-R3", "writes:" + base, "%s and try_%s write the same manager fields" % (base, base), w1 == w2, where=b.where(),
              detail=None if w1 == w2 else "original writes %s, twin writes %s" % (sorted(w1), sorted(w2)))
     R.floor("C07-R3", "twin pairs", found, 13)
+
+    # ---------------- R11 twins order alike
+    R.rule("C07-R11", "twins order alike: partitions are canonical only up to the order of their elements, and several operations rely on that order "
+                      "(sorted by prime). X and try_X therefore use the same ordering operations on node identifiers - order comparisons, `cmp`, "
+                      "sorts, reversals, swaps, min / max: an ordering step added to one twin only makes the budgeted and the unbudgeted operation "
+                      "hand differently ordered partitions to the same consumers (and to the shared caches)")
+
+    def order_profile(b):
+        out = set()
+        for x in prog.family(b.key):
+            for bb, i, pl, rv, st in x.assigns():
+                if rv["rv"] == "binop" and rv["op"] in ("Lt", "Le", "Gt", "Ge"):
+                    tys = sorted({(x.local_ty(F.op_place(o)["l"]) if F.op_place(o) else (o.get("ty") or "")).replace("&", "").split("::")[-1] for o in (rv["a"], rv["b"])})
+                    if any(t in ("SddId", "u32", "VtreeId") for t in tys):
+                        out.add(("order-compare", tuple(tys)))
+            for c in x.calls():
+                nm = c.name()
+                kind = {"lt": "order-compare", "le": "order-compare", "gt": "order-compare", "ge": "order-compare", "cmp": "cmp", "partial_cmp": "cmp",
+                        "reverse": "reverse", "swap": "swap", "min": "min-max", "max": "min-max", "min_by_key": "min-max", "max_by_key": "min-max"}.get(nm)
+                if nm.startswith("sort"):
+                    kind = "sort"
+                if kind is None:
+                    continue
+                tys = sorted({x.local_ty(F.op_place(o)["l"]).replace("&mut ", "").replace("&", "").replace("shared::sdd::", "") for o in c.args if F.op_place(o)})
+                if any("SddId" in t or "VtreeId" in t or t == "u32" for t in tys):
+                    out.add((kind, tuple(t[:60] for t in tys)))
+        return out
+    npairs = 0
+    for nm, b in sorted(methods.items()):
+        if not nm.startswith("try_") or nm[4:] not in methods:
+            continue
+        npairs += 1
+        p1, p2 = order_profile(methods[nm[4:]]), order_profile(b)
+        R.ob("C07-R11", "order:" + nm[4:], "%s and %s use the same ordering operations on node identifiers" % (nm[4:], nm), p1 == p2, where=b.where(),
+             detail=None if p1 == p2 else "only in %s: %s; only in %s: %s - the partitions the two hand on are ordered differently, a consumer that "
+             "relies on the order (a merge of two sorted partitions, a cache key) is right for one twin only" % (nm[4:], sorted(p1 - p2), nm, sorted(p2 - p1)))
+    R.floor("C07-R11", "twin pairs compared", npairs, 13)
     for base in TWINS:
         R.ob("C07-R3", "pair-present:" + base, "pair %s / try_%s exists" % (base, base), base in methods and ("try_" + base) in methods)
 
